@@ -854,6 +854,8 @@ class Interp:
             return v.t
         if isinstance(v, VBool):
             return z3.If(v.t, z3.IntVal(1), z3.IntVal(0))
+        if isinstance(v, VOpaque) and self.pure:
+            return self.ctx.obj_int(v.t)        # spec text: the integer a term stands for (unconstrained when it stands for none)
         raise Unsupported('int expected, got %r' % (v,), node)
 
     def ev_BinOp(self, node, frame):
@@ -1381,6 +1383,9 @@ class Interp:
 
     def index(self, obj, idx, node):
         obj = self.unwrap(obj, node)
+        if isinstance(obj, VNone) and self.pure:
+            self.ctx.qcount += 1        # spec text under a guard that excludes None: an unconstrained value
+            return VOpaque(z3.Const('undefined!%d' % self.ctx.qcount, T.Obj), 'undefined')
         if isinstance(obj, VTuple) or (self.is_list(obj) and isinstance(self.cell(obj).content, list)):
             items = obj.items if isinstance(obj, VTuple) else self.cell(obj).content
             ic = VInt(self.as_int(idx, node)).const()
